@@ -119,6 +119,20 @@ def parseRefusal (keys : List String) (line : String) : String :=
   | .error .unmodelled => "!unmodelled"
   | .error _ => "ValueError"
 
+/-- the parameter of a reaction given as JSON: `param_key` (a named constant) or `param` (a number) -/
+def asParam (v : Json) : Except String (Param String Rat) := do
+  match v.getObjVal? "param_key" with
+  | .ok (.str name) => pure (Param.key name)
+  | _ => pure (Param.const (← asRat (← field v "param")))
+
+/-- the stoichiometric part of a reaction (its `param` field is ignored by `rateDictP`) -/
+def asRxnStoich (v : Json) : Except String (Reaction String Rat) := do
+  let reac ← asDict "reac" asNat (← field v "reac")
+  let prod ← asDict "prod" asNat (← field v "prod")
+  let ir ← asDict "inact_reac" asNat (← field v "inact_reac")
+  let ip ← asDict "inact_prod" asNat (← field v "inact_prod")
+  pure { reac := reac, prod := prod, inactReac := ir, inactProd := ip, param := 0 }
+
 /-- a reaction whose `param` is either a number (`param`) or the name of a variable (`param_key`); `none` = `KeyError` -/
 def resolveRxn (vars : List (String × Rat)) (v : Json) : Except String (Option (Reaction String Rat)) := do
   match v.getObjVal? "param_key" with
